@@ -672,6 +672,8 @@ pub fn run_case(plan: &Plan, seed: u64, idx: u64) -> CaseResult {
     *counters.entry("triples_compiled_ok".into()).or_insert(0) += ok_groups.len() as u64;
     *counters.entry(format!("programs_{family}")).or_insert(0) += 1;
     *counters.entry("parties".into()).or_insert(0) += w.parties.len() as u64;
+    *counters.entry("clock_reads_by_thread_parties".into()).or_insert(0) +=
+        crate::seams::CLOCK_READS_IN_PARTIES.swap(0, std::sync::atomic::Ordering::Relaxed);
     *counters.entry("keys_handed_by_seam".into()).or_insert(0) += log.iter().filter(|e| e.sys == b'g').count() as u64;
     if any_ok {
         *counters.entry("programs_with_ok_compilation".into()).or_insert(0) += 1;
@@ -749,7 +751,11 @@ pub fn fidelity_child() -> i32 {
     if let Some(lim) = party.alloc_limit {
         crate::ALLOC_LIMIT.store(lim, std::sync::atomic::Ordering::SeqCst);
     }
+    // a process party has its own idea of the time too (a warm party: later than its cold twin)
+    let warmed = party.steps.iter().any(|s| s.mode == Mode::Warm) as u64;
+    crate::seams::enter_party_clock(party_time_ns(&party.keys) + warmed * 3_600_000_000_000);
     let outs = run_steps(&w.program, &party.steps);
+    crate::seams::leave_party_clock();
     crate::ALLOC_LIMIT.store(0, std::sync::atomic::Ordering::SeqCst);
     println!("{}", serde_json::to_string(&outs).unwrap());
     0
